@@ -202,14 +202,20 @@ def userNameToFileName(
     userName = "".join(filteredUserName)
     # clip to 255
     sliceLength = maxFileNameLength - prefixLength - suffixLength
-    userName = userName[:sliceLength]
-    # test for illegal files names
-    parts = []
-    for part in userName.split("."):
-        if part.lower() in reservedFileNames:
-            part = "_" + part
-        parts.append(part)
-    userName = ".".join(parts)
+    while True:
+        userName = userName[:sliceLength]
+        # test for illegal files names
+        parts = []
+        for part in userName.split("."):
+            if part.lower() in reservedFileNames:
+                part = "_" + part
+            parts.append(part)
+        userName = ".".join(parts)
+        # an "_" added in front of a reserved part can push the name past the
+        # limit again: clip once more (a part that got its "_" is not reserved
+        # any more, only the part cut by the clipping can newly be)
+        if sliceLength <= 0 or len(userName) <= sliceLength:
+            break
     # test for clash
     fullName = prefix + userName + suffix
     if fullName.lower() in existing:
